@@ -397,14 +397,16 @@ func engineC27(c *vctx) error {
 				}
 				seen[id] = true
 			}
-			if _, ok := sns[origID]; !ok {
-				return fmt.Errorf("original snapshot vanished")
-			}
-			modified := nsn != nil
+			_, origAlive := sns[origID]
+			modified := nsn != nil || !origAlive
 			newTerm, same := "[]", []string{}
 			var sumFiles, sumBytes uint64
 			nEntries := 0
-			if modified {
+			if modified && nsn == nil {
+				// the command removed the original snapshot ("removed empty snapshot"): reported as an empty result
+				sumFiles = 1 << 40
+			}
+			if modified && nsn != nil {
 				if nsn.Original == nil || *nsn.Original != origID {
 					return fmt.Errorf("new snapshot does not name the original")
 				}
@@ -444,8 +446,14 @@ func engineC27(c *vctx) error {
 			}
 			c.Hist(fmt.Sprintf("kept-fraction=%d/4", 4*nEntries/max(1, len(paths))))
 			sort.Strings(same)
+			if !origAlive {
+				kind = "snapshot-removed"
+			}
 			c.Case(kind, len(paths) >= 4, len(paths)+len(pats)+len(ipats), term,
 				fmt.Sprintf("tree=%d entries mode=%s pats=%q ipats=%q -> modified=%v entries=%d same-subtrees=%q summary=(%d,%d)", len(paths), mode, pats, ipats, modified, nEntries, same, sumFiles, sumBytes))
+			if !origAlive {
+				break
+			}
 		}
 	}
 	return nil
